@@ -7,7 +7,7 @@
                     on embedded etcd                                 (dcase)
 *)
 From Coq Require Import String Ascii List ZArith Bool.
-From Verif Require Import Base.GoInt Base.GoFloat Cpumem.Types Cpumem.Schedule Cpumem.Calc.
+From Verif Require Import Base.GoInt Base.GoFloat Cpumem.Types Cpumem.Pdqsort Cpumem.Schedule Cpumem.Calc.
 Import ListNotations.
 Local Open Scope Z_scope.
 
@@ -73,7 +73,6 @@ Definition p_agree (c : pcase) : bool :=
   | Ok l, PPlans l' => plans_eqb l l'
   | Panic r, PPanic o => reason_opt_eqb r o
   | OutOfFuel, PTimeout => true
-  | Ambiguous, PPlans _ => true
   | _, _ => false
   end.
 
@@ -194,7 +193,6 @@ Definition d_agree_deploy (c : dcase) : bool :=
           else negb cok && nr_lookup_eqb (ni_usage (d_info c)) after)
   | Panic r, DPanic o => reason_opt_eqb r o
   | OutOfFuel, DTimeout => true
-  | Ambiguous, DOk _ _ _ _ => true
   | _, _ => false
   end.
 
@@ -211,7 +209,6 @@ Definition d_agree_cap (c : dcase) : bool :=
         else negb present && (total =? 0)
     | Panic r, CapPanic o' => reason_opt_eqb r o'
     | OutOfFuel, CapTimeout => true
-    | Ambiguous, CapOk _ _ _ _ _ _ => true
     | _, _ => false
     end
   | _, _ => false
@@ -320,7 +317,6 @@ Definition r_agree (c : rcase) : bool :=
   | Ok (inr rr), ROk ep d n => eparams_eqb (rr_engine rr) ep && wres_eqb (rr_delta rr) d && wres_eqb (rr_new rr) n
   | Panic r, RPanic o => reason_opt_eqb r o
   | OutOfFuel, RTimeout => true
-  | Ambiguous, ROk _ _ _ => true
   | _, _ => false
   end.
 (* C06 on realloc: no crash, no non-termination *)
@@ -352,3 +348,13 @@ Definition r_ok_c05 (c : rcase) : bool :=
     | _ => true
     end
   else true.
+
+(* ---------- stream "pdq": Go's sort.Slice against the exact model of Cpumem/Pdqsort.v ---------- *)
+Record qcase := mkQ { q_keys : list Z; q_obs : list Z }.   (* keys; observed order of the original indices *)
+Fixpoint number_keys (l : list Z) (i : Z) : list (Z * Z) :=
+  match l with [] => [] | k :: t => (k, i) :: number_keys t (i + 1) end.
+Definition q_agree (c : qcase) : bool :=
+  list_eqb' Z.eqb
+    (map snd (sort_slice (Z * Z) (0, 0) (fun a b => fst a <? fst b) (number_keys (q_keys c) 0)))
+    (q_obs c).
+Definition q_ok (c : qcase) : bool := true.
